@@ -6,6 +6,7 @@ CONSTANTS
   Unit = TRUE
   Variant = "fixed"
   MaxCalls = 4
+  AllocFail = FALSE
   Trunc = {9}
 INVARIANTS NoReleaseBeforeVerify HistoryIndependence SequentialPrefix NoSilentTruncation
 PROPERTY EveryCallReturns
